@@ -6,8 +6,8 @@
 using namespace sim;
 using namespace mpt;
 
-enum { OP_SET, OP_SETRAW, OP_COPY, OP_CLEAR, OP_COMPARE, OP_INEQUAL, OP_SETSTR, OP_NODE };
-static const char *const OPS[] = {"SET", "SET_RAW", "COPY", "CLEAR", "COMPARE", "INEQUAL", "SET_STRLEN", "NODE", 0};
+enum { OP_SET, OP_SETRAW, OP_COPY, OP_CLEAR, OP_COMPARE, OP_INEQUAL, OP_SETSTR, OP_NODE, OP_CXX };
+static const char *const OPS[] = {"SET", "SET_RAW", "COPY", "CLEAR", "COMPARE", "INEQUAL", "SET_STRLEN", "NODE", "CXX_COPY", 0};
 enum { FL_NONE, FL_ALLOC };
 static const char *const FAULTS[] = {"none", "allocfail", 0};
 
@@ -30,7 +30,7 @@ struct IdentWorld : World {
 		int nops = (int) r.range(1, tier ? 80 : 40);
 		bool allocf = r.chance(1, 2);
 		for (int i = 0; i < nops; ++i) {
-			Op op; op.kind = (int) r.below(8);
+			Op op; op.kind = (int) r.below(9);
 			op.a = r.below(3) | (r.below(3) << 8);
 			// length selector relative to the inline capacity of the target: b = selector, c = raw value
 			op.b = r.below(8); op.c = r.below(70000);
@@ -138,6 +138,36 @@ struct IdentWorld : World {
 				log.ev("INEQUAL %d %d -> %d (model %s)", t, s, rc, equal ? "equal" : "different");
 				if ((rc == 0) != equal) fail("wrong-compare", "inequal reports %d, contents are %s", rc, equal ? "equal" : "different");
 				outcome = rc == 0;
+				break;
+			}
+			case OP_CXX: {
+				// the C++ class: a plain identifier (or one with extra inline room) copy-constructed from identifier s of whatever storage size,
+				// living in a block of exactly its own size; assigned from t, renamed, destroyed
+				static const size_t sizes[] = {sizeof(identifier), sizeof(identifier), 24, 32, 64};
+				size_t total = sizes[(size_t) op.c % 5];
+				Block blk(total, 0); memset(blk.p, 0xEE, total);
+				identifier *c;
+				if (op.c & 8) { { Sut su(failn); c = new (blk.p) identifier(total); fired = g.fired; } { Sut su; *c = *id[s]; } }
+				else { if (total != sizeof(identifier)) { total = sizeof(identifier); blk.release(); blk.alloc(total, 0); memset(blk.p, 0xEE, total); } Sut su(failn); c = new (blk.p) identifier(*id[s]); fired = g.fired; }
+				auto same = [&](const identifier *x, const Model &m, const char *what) {
+					size_t want_len = m.kind == 0 ? 0 : m.kind == 1 ? m.b.size() + 1 : m.b.size();
+					if (x->_len != want_len) fail("wrong-length", "C++ identifier %s: length field %u, want %zu", what, x->_len, want_len);
+					const uint8_t *d; { Sut su; d = (const uint8_t *) mpt_identifier_data(x); }
+					for (size_t k = 0; k < m.b.size(); ++k) if (d[k] != m.b[k]) fail("wrong-content", "C++ identifier %s: byte %zu of %zu differs", what, k, m.b.size());
+				};
+				if (!fired) same(c, M[s], "copy-constructed");
+				else if (c->_len) same(c, M[s], "copy-constructed under allocation failure");       // empty or complete, nothing in between
+				if (c->_max + 4u > total) fail("state", "C++ identifier in %zu bytes of storage claims an inline capacity of %u", total, c->_max);
+				{ Sut su; *c = *id[t]; }
+				same(c, M[t], "assigned");
+				if (M[t].kind == 1) { bool eq; Block nb(M[t].b.size() + 1, 0); if (!M[t].b.empty()) memcpy(nb.p, M[t].b.data(), M[t].b.size()); nb.p[M[t].b.size()] = 0; { Sut su; eq = c->equal((const char *) nb.p, (int) M[t].b.size()); } if (!eq) fail("wrong-compare", "C++ identifier does not equal the name it was assigned"); }
+				{ size_t len = pick_len(op, t) % 300; if (len > pool.size()) len = pool.size(); Block nb(len + 1, 0); if (len) memcpy(nb.p, pool.data(), len); nb.p[len] = 0; for (size_t k = 0; k < len; ++k) if (!nb.p[k]) nb.p[k] = 'q';
+				  bool ok; { Sut su; ok = c->set_name((const char *) nb.p, (int) len); } if (!ok) fail("refused-valid", "C++ set_name of %zu bytes refused", len);
+				  const char *nm; { Sut su; nm = c->name(); } if (len && (!nm || memcmp(nm, nb.p, len) || nm[len])) fail("wrong-content", "C++ identifier name of %zu bytes reads back differently (storage %zu)", len, total); }
+				{ Sut su; c->~identifier(); }
+				log.ev("CXX_COPY from %d (storage %zu) into %zu bytes%s, assign from %d", s, ssize[s], total, fired ? " allocfail" : "", t);
+				st.hit(ssize[s] > total ? "probe:cxx_copy_from_larger_storage" : "probe:cxx_copy_same_or_smaller");
+				outcome = 1;
 				break;
 			}
 			case OP_NODE: {
